@@ -455,35 +455,105 @@ def read(classes, cname, meth="load_state_dict"):
 
 
 # ----------------------------------------------------------------------------- run loops
+SAVE_CALLS = ("save_full_state", "save_parameters")
+
+
+def classify(st, counter):
+    """one top-level statement of a run-loop body -> event name"""
+    src = ast.unparse(st)
+    if isinstance(st, ast.AugAssign) and ast.unparse(st.target) == counter:
+        if not (isinstance(st.op, ast.Add) and ast.unparse(st.value) == "1"):
+            raise Unrecognised("counter advanced by something else than `+= 1`: " + src)
+        return "increment"
+    if isinstance(st, ast.Assign) and ast.unparse(st.value) == counter and isinstance(st.targets[0], ast.Name):
+        return "snapshot"  # completed = self._epoch
+    calls = [ast.unparse(n.func) for n in ast.walk(st) if isinstance(n, ast.Call)]
+    if any(c.split(".")[-1] in SAVE_CALLS for c in calls):
+        if not isinstance(st, ast.If):
+            raise Unrecognised("unconditional checkpoint: " + src[:60])
+        return "save"
+    if any(c.endswith(".tune") for c in calls):
+        return "tune"
+    if any(c in ("self.scheduler.step",) for c in calls):
+        return "scheduler"
+    if any(c.endswith("convergence.check") for c in calls):
+        return "convergence"
+    if any(c.endswith("warmup_adaptor.learn") for c in calls):
+        return "adapt"
+    if any(c in ("logger", "logger.log") for c in calls):
+        return "logger"
+    if any(c in ("self.optimizer.step", "operator.step", "self.integrator") for c in calls):
+        return "step"
+    if any(c.endswith(".accept") or c.endswith(".reject") or c == "pack_tensor" for c in calls):
+        return "decide"
+    return "other"
+
+
+def counter_in_state(classes, cname, counter):
+    """state_dict writes a key from the counter attribute and load_state_dict reads it back into it"""
+    try:
+        w = written(classes, cname) if resolve(classes, cname, "state_dict") else ("keys", [])
+        r = read(classes, cname) if resolve(classes, cname, "load_state_dict") else ("keys", [])
+    except Unrecognised:
+        return False
+    if w[0] != "keys" or r[0] != "keys":
+        return False
+    wk = {k for k, a, *_ in w[1] if a == counter}
+    rk = {k for k, a, *_ in r[1] if a == counter}
+    return bool(wk & rk)
+
+
+def saves_state(classes, cname, save_stmt):
+    """the checkpoint statement writes the algorithm state (state_dict) and not only the parameters"""
+    for n in ast.walk(save_stmt):
+        if isinstance(n, ast.Call):
+            f = ast.unparse(n.func)
+            if f.split(".")[-1] == "save_full_state":
+                r = resolve(classes, cname, "save_full_state")
+                return bool(r) and "state_dict()" in ast.unparse(r[1])
+            if f.split(".")[-1] == "save_parameters":
+                return False
+    return False
+
+
 def loops(classes):
+    """one row per run loop that checkpoints: (name, [events in source order], counter is an attribute,
+    counter saved and restored by the class, checkpoint carries the algorithm state)"""
     out = []
     for cname, c in classes.items():
         for mname, (fn, _abs) in c["methods"].items():
             for node in ast.walk(fn):
-                if not isinstance(node, ast.While):
+                if isinstance(node, ast.While) and "self._epoch" in ast.unparse(node.test):
+                    counter, is_attr, implicit_inc = "self._epoch", True, False
+                elif (isinstance(node, ast.For) and isinstance(node.target, ast.Name) and isinstance(node.iter, ast.Call)
+                      and ast.unparse(node.iter.func) == "range" and "iterations" in ast.unparse(node.iter)):
+                    counter, is_attr, implicit_inc = node.target.id, False, True
+                else:
                     continue
-                if "self._epoch" not in ast.unparse(node.test):
-                    continue
-                inc = [i for i, st in enumerate(node.body)
-                       if isinstance(st, ast.AugAssign) and ast.unparse(st.target) == "self._epoch"]
-                sav = [i for i, st in enumerate(node.body) if "save_full_state" in ast.unparse(st)]
-                if not sav:
+                if not any(x in ast.unparse(node) for x in SAVE_CALLS):
                     continue  # a loop that never checkpoints
-                if len(inc) != 1 or not (isinstance(node.body[inc[0]].op, ast.Add)
-                                         and ast.unparse(node.body[inc[0]].value) == "1"):
-                    raise Unrecognised(f"{cname}.{mname}: iteration counter is not advanced by exactly one `+= 1`")
-                if len(sav) != 1:
-                    raise Unrecognised(f"{cname}.{mname}: several checkpoint statements")
-                # the saved counter is whatever state_dict() reads from self._epoch at that moment; an
-                # explicit `+ 1` / `- 1` inside the save statement is not a recognised shape
-                sst = node.body[sav[0]]
+                try:
+                    events = [classify(st, counter) for st in node.body]
+                except Unrecognised as e:
+                    raise Unrecognised(f"{cname}.{mname}: {e}")
+                if implicit_inc:
+                    events.append("increment")  # the `for` header advances the counter after the body
+                if events.count("save") != 1:
+                    raise Unrecognised(f"{cname}.{mname}: {events.count('save')} checkpoint statements")
+                if events.count("increment") != 1:
+                    raise Unrecognised(f"{cname}.{mname}: iteration counter advanced {events.count('increment')} times")
+                if "step" not in events:
+                    raise Unrecognised(f"{cname}.{mname}: no step statement recognised")
+                sst = node.body[events.index("save")]
                 for n in ast.walk(sst):
-                    if isinstance(n, ast.Call) and "save_full_state" in ast.unparse(n.func):
+                    if isinstance(n, ast.Call) and ast.unparse(n.func).split(".")[-1] in SAVE_CALLS:
                         for a in list(n.args) + [k.value for k in n.keywords]:
-                            if "iteration" in ast.unparse(a):
-                                raise Unrecognised(f"{cname}.{mname}: counter passed explicitly to save_full_state")
-                out.append((f"{cname}.{mname}", inc[0] < sav[0]))
-    return sorted(out)
+                            if "iteration" in ast.unparse(a) or "_epoch +" in ast.unparse(a) or "_epoch -" in ast.unparse(a):
+                                raise Unrecognised(f"{cname}.{mname}: counter passed explicitly to the save call")
+                out.append({"name": f"{cname}.{mname}", "events": events, "counter_is_attr": is_attr,
+                            "counter_saved": is_attr and counter_in_state(classes, cname, counter),
+                            "saves_state": saves_state(classes, cname, sst)})
+    return sorted(out, key=lambda r: r["name"])
 
 
 # ----------------------------------------------------------------------------- emit
@@ -548,7 +618,10 @@ def translate(repo: Path):
             rs_ = ",\n      ".join(entry(*e) for e in r[1])
             cls_src.append(f"  {{ name := {lstr(c['name'])},\n    written := [\n      {ws}],\n    read := [\n      {rs_}],\n"
                            f"    delegateW := none, delegateR := none }}")
-    loops_src = ",\n  ".join(f"⟨{lstr(n)}, {'true' if b else 'false'}⟩" for n, b in table["loops"])
+    tf = lambda b: "true" if b else "false"  # noqa: E731
+    loops_src = ",\n  ".join(
+        f"⟨{lstr(r['name'])}, [{', '.join('.' + e for e in r['events'])}], {tf(r['counter_is_attr'])}, "
+        f"{tf(r['counter_saved'])}, {tf(r['saves_state'])}⟩" for r in table["loops"])
     abs_src = ", ".join(f"({lstr(n)}, [{', '.join(lstr(m) for m in ms)}])" for n, ms in table["abstract"])
     header = "\n    ".join(notes)
     lean = (
@@ -561,7 +634,8 @@ def translate(repo: Path):
         "/-- one entry per concrete class: keys written by state_dict / read by load_state_dict,\n"
         "    each as ⟨key, attribute, condition⟩ -/\n"
         "def classes : List ClassKeys := [\n" + ",\n".join(cls_src) + "]\n\n"
-        "/-- checkpointing loops: ⟨name, counter incremented before the checkpoint is written⟩ -/\n"
+        "/-- checkpointing loops, one row each: ⟨name, top-level statements of the body in source order, the counter is an\n"
+        "    attribute, it is saved and restored by the class, the checkpoint carries the algorithm state⟩ -/\n"
         f"def loops : List LoopSpec := [\n  {loops_src}]\n\n"
         "/-- registered/leaf classes that cannot be instantiated (abstract state methods left unimplemented) -/\n"
         f"def notInstantiable : List (String × List String) := [{abs_src}]\n\n"
